@@ -19,7 +19,9 @@ func init() {
 			"'no header younger than the pruning window is deleted' (numeric relation between estimated heights and header times)",
 			"gap-freedom of the Store after the move (C04/C08) and wedging of Head()/Start at run time",
 		},
-		Run: runC16,
+		Technique: "arithmetic-safety obligations (division, unsigned subtraction, conversion) discharged by a linear prover over guard facts + validated-parameter invariants; move-direction guards and lock-region rules",
+		Trusted:   "go/types+go/ssa; integers read as mathematical integers in guard facts; Parameters are not mutated after NewSyncer",
+		Run:       runC16,
 	})
 }
 
